@@ -482,6 +482,41 @@ func checkC05(c C05Case, r *Rec) *Violation {
 			return v
 		}
 	}
+	// every split: for a program with up to four variables ALL available/unavailable splits are tried
+	// (three option subsets), each against the Kleene evaluator - the deciding operand before, after and
+	// between the unavailable ones, in every arrangement the program allows
+	if names := c.Tree.VarNames(); len(names) >= 1 && len(names) <= 4 {
+		for _, mask := range []int{0, 15, int(hash64(src)/16) % 16} {
+			log := &Log{}
+			cc, _ := NewConfig(u, log, Build{Mask: mask})
+			e, co := SafeCompile(cc, src)
+			if co.Panic != nil || co.Err != nil {
+				return Violf("C05: compile failed\nsrc=%s\n%v", src, co)
+			}
+			for sub := 0; sub < 1<<len(names); sub++ {
+				av := map[string]bool{}
+				var avl []string
+				for i, n := range names {
+					if sub&(1<<i) != 0 {
+						av[n] = true
+						avl = append(avl, n)
+					}
+				}
+				ks := kenv.Kleene(c.Tree, av)
+				f := NewFetcher(u, cc, log)
+				f.Avail = av
+				f.DNEAsValue = sub%3 == 1
+				o := Safe(func() (eval.Value, error) { return e.TryEval(f.Ctx()) })
+				if o.Panic != nil || o.Err != nil {
+					return Violf("C05: TryEval fails although no sub-expression fails (every split of a small program)\n%s\navailable here=%v\n%v", describe(mask, e), avl, o)
+				}
+				if !m.IsDNE(ks) && !m.EqualVal(o.Val, ks) {
+					return Violf("C05: three-valued evaluation is definite but TryEval does not return its value (every split of a small program)\n%s\navailable here=%v\nTryEval=%v\nKleene=%s", describe(mask, e), avl, o, refString(ks, nil))
+				}
+			}
+		}
+		r.Class(fmt.Sprintf("every-split-of-%d-variables", len(names)))
+	}
 	definite := !m.IsDNE(k)
 	after := kenv.KleeneDecidedAfterDNE(c.Tree, avail)
 	if hash64(src)%4 == 0 && nUnavail > 0 {
@@ -507,7 +542,7 @@ func checkC05(c C05Case, r *Rec) *Violation {
 
 var propC05 = Prop[C05Case]{
 	ID:    "C05",
-	Rule:  "typed random expression, repaired so that no sub-expression fails under the binding, x available/unavailable split of its variables (unavailable = not cached, or in a quarter of the cases cached with the DNE marker as value) x 16 optimization subsets; oracle: independent Kleene evaluator K on the source tree (definite K => TryEval returns exactly that value; otherwise DNE with nil error, TryEvalBool ErrDNE; never an error); the same through contexts the library builds itself (NewCtxFromVars with every value supplied; a map-backed context holding the available values, completed with Ctx.Set afterwards; a slice-backed context built from the smaller config that knows the available variables only), 3 subsets each. Non-trivial = K is definite, at least one variable is unavailable, and some and/or is decided by an operand located after an unavailable one; distinct by source + split + binding",
+	Rule:  "typed random expression, repaired so that no sub-expression fails under the binding, x available/unavailable split of its variables (unavailable = not cached, or in a quarter of the cases cached with the DNE marker as value) x 16 optimization subsets; oracle: independent Kleene evaluator K on the source tree (definite K => TryEval returns exactly that value; otherwise DNE with nil error, TryEvalBool ErrDNE; never an error); for programs with up to four variables every available/unavailable split is tried; the same through contexts the library builds itself (NewCtxFromVars with every value supplied; a map-backed context holding the available values, completed with Ctx.Set afterwards; a slice-backed context built from the smaller config that knows the available variables only), 3 subsets each. Non-trivial = K is definite, at least one variable is unavailable, and some and/or is decided by an operand located after an unavailable one; distinct by source + split + binding",
 	Gen:   genC05,
 	Check: checkC05,
 }
